@@ -1,0 +1,47 @@
+//go:build verif
+
+// Contracts for package netpoll, used by /verif/gvc (see /verif/DESIGN.md).
+// The registration functions are thin wrappers over epoll_ctl with bit-level event masks; they are not
+// verified here (noverify) and act as assumed contracts over the ghost state polled/armed of
+// /verif/contracts/trusted/unix.spec.
+
+package netpoll
+
+//@ func (p *Poller) AddRead(pa *PollAttachment, edgeTriggered bool) (err error)
+//@   noverify epoll_ctl wrapper with bit-level event masks
+//@   requires p != nil && pa != nil && owner[pa.FD] != nil
+//@   modifies polled[pa.FD], armed[pa.FD]
+//@   ensures err == nil ==> polled[pa.FD] && !armed[pa.FD]
+//@   ensures err != nil ==> polled[pa.FD] == old(polled[pa.FD]) && armed[pa.FD] == old(armed[pa.FD])
+//
+//@ func (p *Poller) AddReadWrite(pa *PollAttachment, edgeTriggered bool) (err error)
+//@   noverify epoll_ctl wrapper with bit-level event masks
+//@   requires p != nil && pa != nil && owner[pa.FD] != nil
+//@   modifies polled[pa.FD], armed[pa.FD]
+//@   ensures err == nil ==> polled[pa.FD] && armed[pa.FD]
+//@   ensures err != nil ==> polled[pa.FD] == old(polled[pa.FD]) && armed[pa.FD] == old(armed[pa.FD])
+//
+//@ func (p *Poller) ModRead(pa *PollAttachment, edgeTriggered bool) (err error)
+//@   noverify epoll_ctl wrapper with bit-level event masks
+//@   requires p != nil && pa != nil && owner[pa.FD] != nil && polled[pa.FD]
+//@   modifies armed[pa.FD]
+//@   ensures err == nil ==> !armed[pa.FD]
+//@   ensures err != nil ==> armed[pa.FD] == old(armed[pa.FD])
+//
+//@ func (p *Poller) ModReadWrite(pa *PollAttachment, edgeTriggered bool) (err error)
+//@   noverify epoll_ctl wrapper with bit-level event masks
+//@   requires p != nil && pa != nil && owner[pa.FD] != nil && polled[pa.FD]
+//@   modifies armed[pa.FD]
+//@   ensures err == nil ==> armed[pa.FD]
+//@   ensures err != nil ==> armed[pa.FD] == old(armed[pa.FD])
+//
+//@ func (p *Poller) Delete(fd int) (err error)
+//@   noverify epoll_ctl wrapper
+//@   requires p != nil && owner[fd] != nil
+//@   modifies polled[fd], armed[fd]
+//@   ensures err == nil ==> !polled[fd] && !armed[fd]
+//
+// Trigger: the task is queued for the loop that owns the poller and runs there later, once (property C03, assumed).
+//@ func (p *Poller) Trigger(priority queue.EventPriority, fn queue.Func, param any) (err error)
+//@   noverify lock-free queue and eventfd wake-up protocol (cross-goroutine, see C03)
+//@   requires p != nil
